@@ -380,7 +380,8 @@ func (c *Ctx) seacRulesX4() {
 			for _, root := range c.sliceRootsX4(st.Val) {
 				if isFieldLoad(root, glyphT, "Cmds") {
 					src, _, _ := fieldOf(origin(root))
-					if dst != src {
+					// (the same object may be loaded twice: `p.glyph.Cmds = append(p.glyph.Cmds, …)`)
+					if dst != src && !sameValue(dst, src) {
 						alias = c.pos(st.Pos())
 					}
 				}
